@@ -421,7 +421,7 @@ RULE = ("random histories of 4-14 operations over 1-3 objects (json values, tabl
         "configurations created, registered into, made global and dropped, every way of passing the palette "
         "(configuration, palette object, synced palette, global) and of consuming the result (whole, by line, both "
         "orders); plus hunts that repeat 'render under A, drop A, create B, render' until a palette identity is "
-        "re-used, and targeted 'render, register (new + existing ids), render' histories.  Non-trivial = the history renders some object at least twice under different configurations or "
+        "re-used, and targeted 'render, register (new + existing ids), render' and 'synced palette, replace the global configuration, synced palette' histories.  Non-trivial = the history renders some object at least twice under different configurations or "
         "after a registration / drop.")
 TRUSTED_BASE = [
     "the chunk program of every object (which palette accessor colours which text) is taken from the implementation by a probe rendering with an instrumented palette on a fresh copy of the object; the layout code that produces it (pretty-printer, table, record, report, help formatters) is NOT modelled in Coq",
@@ -693,16 +693,34 @@ def _reg_case(rng):
     return {"fts": [], "objs": [obj], "ops": ops}
 
 
+def _synced_case(rng):
+    """palettes synced with the global configuration: the global configuration is replaced (by a coloured one,
+    a no_color one, the default one) and registered into between renderings through palette=K(synced=True)"""
+    a, b, c = rng.sample(COLORS[1:], 3)
+    confs = [["newconf", 0, False, {"NUMBER": a, "NAME": a + ":bold"}],
+             ["newconf", 1, rng.random() < 0.5, {"NUMBER": b, "KEYWORD": rng.choice([b, "U.B"])}]]
+    obj = {"k": "json", "v": _fix_keys({"id": 7, "name": "x", "ok": True, "l": [1, "two", None]}), "fj": rng.random() < 0.3}
+    rs = lambda nc=False: ["render", 0, None, nc, "synced", rng.choice([0, 0, 1, 2])]
+    ops = confs + [["setglobal", 0], rs(), ["setglobal", 1], rs()]
+    tail = [[["reg", 1, {"U.B": c}], rs()], [["setglobal", None], rs()], [["setglobal", 0], rs(rng.random() < 0.3)],
+            [["render", 0, 1, False, "none", 0], rs()]]
+    rng.shuffle(tail)
+    for t in tail[:rng.randrange(1, 4)]:
+        ops += t
+    return {"fts": [], "objs": [obj], "ops": ops}
+
+
 def gen_cases(rng, tier):
     big = tier == "thorough"
     cases = [_rand_history(rng, big) for _ in range(6000 if big else 420)]
     cases += [_reg_case(rng) for _ in range(200 if big else 12)]
+    cases += [_synced_case(rng) for _ in range(200 if big else 12)]
     cases += [_hunt_case(rng) for _ in range(12 if big else 3)]
     return cases
 
 
 def search_cases(rng, tier):
-    return [_hunt_case(rng) for _ in range(30)] + [_reg_case(rng) for _ in range(60)] + [_rand_history(rng, True) for _ in range(600)]
+    return [_hunt_case(rng) for _ in range(30)] + [_reg_case(rng) for _ in range(60)] + [_synced_case(rng) for _ in range(60)] + [_rand_history(rng, True) for _ in range(600)]
 
 
 def kind(case):
@@ -720,13 +738,26 @@ def _all_subclasses(c):
     return out
 
 
+_IMPORT_STATE = {}
+
+
 def _reset_globals():
+    """back to the state of a fresh process: no global configuration, no synced palettes, the per-class no_color
+    slots as they were right after import (a class that had no slot of its own gets none: resetting must not
+    paper over a slot shared through inheritance)"""
     import gc
     from ak import color
     color._GLOBAL_COLORS_CONF = None
     color._GSYNCED_PALETTES.clear()
     for c in [color.Palette] + _all_subclasses(color.Palette):
-        type.__setattr__(c, "_PALETTE_NO_COLOR", None)
+        if c not in _IMPORT_STATE:
+            # first sight of the class: nothing has been rendered through it yet
+            _IMPORT_STATE[c] = ("_PALETTE_NO_COLOR" in c.__dict__, c.__dict__.get("_PALETTE_NO_COLOR"))
+        own, val = _IMPORT_STATE[c]
+        if own:
+            type.__setattr__(c, "_PALETTE_NO_COLOR", val)
+        elif "_PALETTE_NO_COLOR" in c.__dict__:
+            type.__delattr__(c, "_PALETTE_NO_COLOR")
     gc.collect()
 
 
@@ -1150,6 +1181,13 @@ def _reference(case, i, op, snap, ex, klasses):
     return out
 
 
+def _safe_reference(case, i, op, snap, ex, klasses):
+    try:
+        return _reference(case, i, op, snap, ex, klasses)
+    except Exception as e:  # noqa  the fresh-state rendering itself raises
+        return {"ref_err": SX.exc_name(e)}
+
+
 def _run_history(case, w, klasses, log):
     """-> per-op records; raises nothing from the implementation (exceptions are recorded)"""
     import gc
@@ -1227,6 +1265,9 @@ def impl_run(case):
                 # no chunk program, the case is outside the model; the oracle still sees the history
                 progs.append(None)
                 probe.oom = "probe: " + str(e)[:200]
+            except Exception as e:  # noqa  the implementation raised under the instrumented palette
+                progs.append(None)
+                probe.oom = "probe raised " + SX.exc_name(e)
         ftdefs = [[[li, probe.lits[i].keys[li], {str(mi): d[mi][0] for mi in d}] for li, d in sorted(fd.items())] for i, fd in enumerate(probe.ftdefs)]
         del pw
         oom, aliased = probe.oom, probe.aliased
@@ -1245,13 +1286,13 @@ def impl_run(case):
         type.__setattr__(color.Palette, "__init__", init)
         if case.get("hunt"):
             # reference first, then repeat the pattern until some text differs from it
-            refs = [(_reference(case, i, op, snaps[i], ex, klasses) if op[0] in ("render", "help") else None) for i, op in enumerate(case["ops"])]
+            refs = [(_safe_reference(case, i, op, snaps[i], ex, klasses) if op[0] in ("render", "help") else None) for i, op in enumerate(case["ops"])]
             _reset_globals()
             w = _World(case)
             recs = None
             for attempts in range(1, int(case["hunt"]) + 1):
                 recs = _run_history(case, w, klasses, log)
-                if any(r is not None and "out" in rec and any(o != r["ref"] for o in rec["out"]) for rec, r in zip(recs, refs)):
+                if any(r is not None and "ref" in r and "out" in rec and any(o != r["ref"] for o in rec["out"]) for rec, r in zip(recs, refs)):
                     break
         else:
             _reset_globals()
@@ -1264,7 +1305,7 @@ def impl_run(case):
     gc.collect()
     # 3. references in pristine state
     if refs is None:
-        refs = [(_reference(case, i, op, snaps[i], ex, klasses) if op[0] in ("render", "help") and "out" in recs[i] else None) for i, op in enumerate(case["ops"])]
+        refs = [(_safe_reference(case, i, op, snaps[i], ex, klasses) if op[0] in ("render", "help") and "out" in recs[i] else None) for i, op in enumerate(case["ops"])]
     _reset_globals()
     for rec, r in zip(recs, refs):
         if r:
@@ -1423,6 +1464,9 @@ def oracle(case, obs):
             out.append(("render-raises", f"{where} raised {rec['err']}"))
             continue
         if "out" not in rec:
+            continue
+        if "ref_err" in rec:
+            out.append(("render-raises", f"{where}: rendering a fresh copy under a fresh configuration raised {rec['ref_err']}"))
             continue
         ref, ref_nc = rec["ref"], rec["ref_nc"]
         nocolor = op[0] == "render" and op[3]
